@@ -107,6 +107,8 @@ class Engine:
         self.tokens = []
         self.token_back = {}
         self.nested = 0
+        self.path_serial = getattr(self, "path_serial", 0) + 1
+        self.memo = {}
         self.solver.reset()
         self.solver.set("timeout", SOLVER_TIMEOUT_MS)
         if self.pre is not None:
